@@ -31,7 +31,8 @@ TMonoid == /\ Is("Monoid") /\ ~IsEndo /\ Adv /\ UNCHANGED eord
 TReduce == /\ Is("Reduce") /\ Adv /\ UNCHANGED eord
            /\ IF Ev.mx \in {"endo", "dual(endo)"} THEN TRUE
               ELSE SemEq(Ev.out, FoldL(Ev.mx, Ev.xs, 1, Empty(Ev.mx)))
-TNext == (TEndo \/ TMonoid \/ TReduce) /\ UNCHANGED <<mvars, tvars4>>
+TCase == Is("Case") /\ Adv /\ UNCHANGED eord
+TNext == (TCase \/ TEndo \/ TMonoid \/ TReduce) /\ UNCHANGED <<mvars, tvars4>>
 TInit == l = 1 /\ eord = 0 /\ vu = 1 /\ va = I(0) /\ vb = I(0) /\ vc = I(0) /\ mx = "sum" /\ ma = I(0) /\ mb = I(0) /\ mc = I(0)
 TSpec == TInit /\ [][TNext]_<<l, eord, mvars, tvars4>>
 HighWater == TLCSet(1, IF TLCGet(1) < l THEN l ELSE TLCGet(1))
